@@ -22,6 +22,30 @@ def interp_for(prog):
         for b in prog.bodies():
             if relevant(b):
                 I.summary(b["p"])
+        # Functions of a recursive cycle were summarised while their partners were still unknown (their mutual calls are not judged
+        # in pass 1), so "tokens arrive as they are" (A) was never contradicted.  With every summary known: a function whose calls
+        # are inconsistent under A but all consistent under B ("tokens arrive re-based for the Reference parameter") follows B.
+        for _ in range(4):
+            changed = False
+            for b in prog.bodies():
+                if not relevant(b):
+                    continue
+                s1 = I.summaries.get(b["p"])
+                if s1 is None or getattr(s1, "conv", "A") != "A":
+                    continue
+                I.pass2 = True
+                try:
+                    sa = I.analyse_body(b, "A")
+                    if any(x.ok is False and x.kind == "S2" for x in sa.sinks) and not any(x.ok is False for x in s1.sinks):
+                        sb = I.analyse_body(b, "B")
+                        if not any(x.ok is False for x in sb.sinks):
+                            sb.conv = "B"
+                            I.summaries[b["p"]] = sb
+                            changed = True
+                finally:
+                    I.pass2 = False
+            if not changed:
+                break
         _cache[id(prog)] = I
     return _cache[id(prog)]
 
